@@ -108,7 +108,8 @@ def read_name(f):
 def read_hosts(text):
     """('ok', v4, v6, maybe_err) | ('err',) | ('amb',)"""
     v4, v6 = {}, {}
-    maybe_err = False
+    maybe_err = False          # a first field starting with '%': not judged
+    addr_only_bad = False      # an address-only line whose single field is not an address
     for line in text.split("\n"):
         body = line.split("#", 1)[0]
         if any(ord(c) > 127 for c in body):
@@ -127,7 +128,7 @@ def read_hosts(text):
             return ("amb",)
         if len(fields) == 1:
             if addr is None:
-                maybe_err = True
+                addr_only_bad = True
             continue
         if addr is None:
             return ("err",)
@@ -139,7 +140,7 @@ def read_hosts(text):
             names.append(n)
         for n in names:
             (v4 if addr[0] == "v4" else v6)[n] = addr[1]
-    return ("ok", v4, v6, maybe_err)
+    return ("ok", v4, v6, maybe_err, addr_only_bad)
 
 
 def name_tok(labels):
@@ -166,6 +167,9 @@ def text_of_case_arg(t):
 # oracle
 # --------------------------------------------------------------------------
 
+ADDR_ONLY_CLASS = "address-only-malformed-line-rejected"
+
+
 def check_parse(ref, impl_is_err, impl_hosts_tok, what):
     """compare the reference reading with an implementation result"""
     if ref[0] == "amb":
@@ -174,10 +178,14 @@ def check_parse(ref, impl_is_err, impl_hosts_tok, what):
         if not impl_is_err:
             return ("accepts-malformed", "%s: a line that maps names has a malformed address or name, but the file was accepted" % what)
         return None
-    _, v4, v6, maybe = ref
+    _, v4, v6, maybe, addr_only_bad = ref
     if impl_is_err:
         if maybe:
             return None
+        if addr_only_bad:
+            # the property text says address-only lines are ignored; the code rejects the file when the
+            # malformed single field is followed by white space (known finding, see known_findings.json)
+            return (ADDR_ONLY_CLASS, "%s: a line holding only a malformed address (no names) made the whole file an error" % what)
         return ("rejects-wellformed", "%s: rejected a file hosts(5) reads as %s" % (what, core.trunc(hosts_tok(v4, v6), 200)))
     want = hosts_tok(v4, v6)
     if impl_hosts_tok != want:
@@ -221,7 +229,7 @@ def oracle(case, impl, model):
                 return None
             v4 = dict(r1[1]); v4.update(r2[1])
             v6 = dict(r1[2]); v6.update(r2[2])
-            return check_parse(("ok", v4, v6, False), impl.startswith("Err:"), impl[3:] if impl.startswith("Ok:") else None, "merge")
+            return check_parse(("ok", v4, v6, False, r1[4] or r2[4]), impl.startswith("Err:"), impl[3:] if impl.startswith("Ok:") else None, "merge")
         if op == "S":
             if not impl.startswith("Ok:"):
                 return check_parse(ref, True, None, "deserialise")
@@ -503,6 +511,7 @@ def rand_file(rng, p_bad=0.2, maxlines=8):
 
 
 CORPUS = [
+    "zzz \n1.2.3.4 foo",                  # known finding: malformed address-only line followed by a space
     "1.2.3.4 foo#c",                      # F6: the name ended by '#' is kept
     "1.2.3.4 foo #é",                     # F6b: comment text may be anything
     "1.2.3.4 foo#é\n",
@@ -705,7 +714,7 @@ def extra(ctx):
                 stats["rejected"] += 1
             continue
         if rc != 0:
-            if ref[3]:
+            if ref[3] or ref[4]:
                 stats["rejected"] += 1
                 continue
             fails.append(core.Failure("rejects-wellformed", "htoh rejected a well-formed file: " + core.trunc(e1, 200), case, e1, None))
